@@ -76,8 +76,12 @@ def make_series(family, values):
     if family == 'object-strnan':
         # nulls are fresh float NaN objects, not None and not the numpy singleton
         return pd.Series([float('nan') if v is None else v for v in vals], dtype=object)
-    if family in ('category', 'category-int'):
+    if family == 'category-int':
         return pd.Series(pd.Categorical(vals))
+    if family == 'category':
+        # the declared labels are wider than the data (as after a row filter): a label no record uses is not a value
+        used = sorted(set(v for v in vals if v is not None))
+        return pd.Series(pd.Categorical(vals, categories=used + ['zz-unused-label']))
     if family == 'string':
         return pd.Series(vals, dtype='string')
     if family.startswith('datetime64'):
